@@ -30,7 +30,7 @@ META = {
     "design_ref": "DESIGN.md §3 C13",
     "engines": ["optrun", "proggen"],
 }
-REQUIRED = ("cases_on_sqlite", "twin_runs", "trials_compared", "pruning_decisions_true", "multi_objective_twins", "best_trial_comparisons")
+REQUIRED = ("gp_twin_cases", "cases_on_sqlite", "twin_runs", "trials_compared", "pruning_decisions_true", "multi_objective_twins", "best_trial_comparisons")
 SHARDS = {"quick": 14, "thorough": 16}
 WATCHDOG_S = {"quick": 1200, "thorough": 5 * 3600}
 BUDGET_S = {"quick": 70, "thorough": 3000}
@@ -166,10 +166,9 @@ def run(ctx: Ctx) -> None:
     ctx.assumptions = ["runs whose objective values are not pairwise distinct are discarded (premise of the property)", "GP only in the thorough tier"]
     if ctx.shard[1] > 1 and ctx.shard[0] == ctx.shard[1] - 1 and not ctx.thorough():
         # the last shard of the quick tier is spent on GP twins (about 4 s per GP trial)
-        for g in range(3):
-            if ctx.out_of_time():
-                break
+        for g in range(3):   # mandatory: not subject to the time budget (the watchdog still applies)
             one_case(ctx, ctx.rng("gp-case", g), 10 ** 6 + g, force_sampler="gp")
+            ctx.count("gp_twin_cases")
         return
     for c in range(ctx.pick(600, 6000)):
         if not ctx.mine(c):
